@@ -248,6 +248,7 @@ def count_ops(cfg, warm, op, nr):
     counters = dict(st.net.counters)
     ncmds = st.net.cmd_counter
     units = list(st.net.units)
+    count_ops.bounds = dict(st.net.unit_bounds)
     return counters, ncmds, units
 
 
@@ -305,7 +306,10 @@ def fault_plans(cfg, warm, op, nr, interrupts=False, trunc_all=False):
                 continue
             for rf in REPLY_FAULTS:
                 plans.append({("reply", idx): rf})
-            cuts = range(0, nbytes) if (trunc_all or nbytes <= 12) else sorted({0, 1, nbytes // 2, nbytes - 2, nbytes - 1})
+            # (for longer replies: both ends, the middle, and right after / one byte into every line -- the stream then ends
+            # after a complete VALUE header, inside the data block, before END)
+            lines = {c for b in count_ops.bounds.get(idx, []) for c in (b, b + 1) if c < nbytes}
+            cuts = range(0, nbytes) if (trunc_all or nbytes <= 12) else sorted({0, 1, nbytes // 2, nbytes - 2, nbytes - 1} | lines)
             for cut in cuts:
                 plans.append({("reply", idx): ("trunc", cut, True)})
             plans.append({("reply", idx): ("trunc", max(0, nbytes // 2), False)})   # then silence -> timeout
